@@ -1,7 +1,11 @@
 """Subprocess helper of harness/props/c04.py: one short real run of a shipped configuration.
 
-usage: c04_run.py <tree root> <ini relative to config_files/2018_JCP_149_064113> <end_of_run_time> <seed>
+usage: c04_run.py <tree root> <ini relative to config_files/2018_JCP_149_064113> <end_of_run_time> <seed> [<json overrides>]
+(overrides: {section: {option: value}}, e.g. more particles and more event handlers per tagger — several candidates of one tagger
+are then pending at once, each on its own deep copy of the prepared event handler)
 
+For the cell-bounding handlers the constant bounding rate the candidate was PROPOSED with (set by `displacement()` inside the handler's
+own `send_event_time`) is noted per handler object and reported next to the rate the event is CONFIRMED against.
 Every `send_out_state` of the six thinning event handlers is observed (class-level wrappers, no source change):
 the bounding rate and the true rate that the handler compares (as handed to `bounding_potential_warning`, or, for
 the two-leaf handlers when the true derivative is <= 0, recomputed from the handler's own potential), the value
@@ -33,6 +37,12 @@ def main():
     config = ConfigParser()
     assert config.read(os.path.join("config_files", "2018_JCP_149_064113", ini)), ini
     config.set("FinalTimeEndOfRunEventHandler", "end_of_run_time", repr(end))
+    if len(sys.argv) > 5:
+        for sec, kv in json.loads(sys.argv[5]).items():
+            if not config.has_section(sec):
+                config.add_section(sec)
+            for k, v in kv.items():
+                config.set(sec, k, str(v))
 
     kinds = {1: ("two_leaf_unit_bounding_potential_event_handler", "TwoLeafUnitBoundingPotentialEventHandler"),
              2: ("two_leaf_unit_cell_bounding_potential_event_handler", "TwoLeafUnitCellBoundingPotentialEventHandler"),
@@ -80,7 +90,33 @@ def main():
         return orig_calc(self, separation, potential_charges)
     base_cls._calculate_out_state_of_two_leaf_unit_bounding_potential = calc
 
+    proposal = {}                # id(handler) -> bounding rate its pending candidate was proposed with
+    from jellyfysh.potential.cell_bounding_potential import CellBoundingPotential
+    orig_disp = CellBoundingPotential.displacement
+
+    def displacement(self, *a, **k):
+        out = orig_disp(self, *a, **k)
+        if cur.get("sender") is not None:
+            cur["sender_rate"] = self._bounding_event_rate
+        return out
+    CellBoundingPotential.displacement = displacement
+
+    def wrap_time(cls):
+        orig_t = cls.send_event_time
+
+        @functools.wraps(orig_t)
+        def send_event_time(self, *args):
+            cur["sender"], cur["sender_rate"] = id(self), None
+            try:
+                return orig_t(self, *args)
+            finally:
+                proposal[id(self)] = cur.get("sender_rate")
+                cur["sender"] = None
+        cls.send_event_time = send_event_time
+
     def wrap(kind, cls):
+        if kind in (2, 5):
+            wrap_time(cls)
         orig = cls.send_out_state
 
         @functools.wraps(orig)      # the mediator reads the arity with inspect.signature
@@ -110,6 +146,7 @@ def main():
             print("REC " + json.dumps({
                 "handler": cls.__name__, "kind": kind, "leaf": kind <= 3, "n": counter["n"],
                 "bound": f2b(pair[0]), "true": f2b(pair[1]),
+                "proposal_bound": (f2b(proposal[id(self)]) if kind in (2, 5) and proposal.get(id(self)) is not None else None),
                 "draw": f2b(rec["draws"][0][2]) if rec["draws"] else None,
                 "draw_args": [f2b(rec["draws"][0][0]), f2b(rec["draws"][0][1])] if rec["draws"] else None,
                 "ndraws": len(rec["draws"]), "npairs": len(rec["pairs"]),
